@@ -167,6 +167,12 @@ func isZeroTest(info *types.Info, e ast.Expr) (bool, string) {
 			}
 			return isZeroTest(info, x.Y)
 		case token.EQL:
+			// v == T{}: comparison with the zero value written as an empty composite literal
+			for _, side := range []ast.Expr{x.X, x.Y} {
+				if cl, ok := ast.Unparen(side).(*ast.CompositeLit); ok && len(cl.Elts) == 0 {
+					return true, ""
+				}
+			}
 			if isZeroConst(info, x.Y) && constOf(info, x.X) == nil {
 				return true, ""
 			}
